@@ -1151,8 +1151,9 @@ def add_companion(rng, spec, file_mode=0.0, disabled=0.5):
         if m["k"] != "f" or m.get("tag") is not None or m["name"] not in dtop:
             continue
         a, b = m["type"], dtop[m["name"]]["type"]
-        if {a, b} & bad or elem_struct(a) or elem_struct(b) or mentions_pkg(b, "src") or (a, b) in [(x, y) for _, x, y in pairs]:
-            continue
+        if ({a, b} & bad or elem_struct(a) or elem_struct(b) or mentions_pkg(a, "src") or mentions_pkg(b, "src") or
+                a[0] == "p" or b[0] == "p" or dtop[m["name"]].get("tag") is not None or (a, b) in [(x, y) for _, x, y in pairs]):
+            continue          # the companion's own mapping must be free of the known compile defects (src-named / pointer conversions)
         pairs.append((m["name"], a, b))
     if not pairs:
         return spec
